@@ -77,6 +77,8 @@ def write_evidence(run, lean, wall, nviol):
         "theorems": lean["theorems"],
         "axioms": lean["axioms"],
         "translator": lean["translator"],
+        "leanchecker": lean.get("leanchecker", "not run (thorough tier only)"),
+        "lean_build_s": lean.get("build_s"),
         "evaluations": run.evaluations,
         "distinct_nontrivial": len(run.distinct),
         "rule": run.extra.get("rule", "cases are generated from one PRNG seeded by (property, tier, VERIF_SEED); "
